@@ -120,18 +120,25 @@ let large_total = try float_of_string (Sys.getenv "VERIF_C08_LARGE_TOTAL") with 
 let large_spent = ref 0.0
 (* Some conv = what the as-is model of Context::convert_base predicts on every route; None = not evaluated *)
 let full_asis b nb p m s e : conv option =
-  match convert_base_asis b nb p m s e with
+  match convert_base_asis4 b nb p m s e with
   | CLarge ->
       if Zar.gt p (zi 700) || !large_spent > large_total then None
       else begin
         let t0 = Unix.gettimeofday () in
-        let r = with_budget large_budget (fun () -> convert_base_full_asis f32 word_bits fuel b nb p m s e) in
+        let r = with_budget large_budget (fun () -> convert_base_full_asis4 f32 word_bits fuel b nb p m s e) in
         large_spent := !large_spent +. (Unix.gettimeofday () -. t0);
         (match r with Some CLarge -> None | r -> r)
       end
   | r -> Some r
 
 let threshold_small_exp = threshold_small_exp_gen   (* regenerated from float/src/convert.rs *)
+(* the smallest r with n = r^k (k >= 1); two bases have a common root iff these agree *)
+let primitive_root (n : Zar.t) : Zar.t =
+  let n = Zar.to_int n in
+  let rec pw r acc = if acc >= n then acc else pw r (acc * r) in
+  let rec go r = if r >= n then n else if pw r r = n then r else go (r + 1) in
+  zi (if n < 2 then n else go 2)
+let common_root_spec b nb = Zar.equal (primitive_root b) (primitive_root nb)
 (* error contract assumed for ln / exp / ln_base at the work precision, in units of the last place (ln_base of a
    power of two is a product, hence more than one unit) *)
 let k_contract = zi 4
@@ -178,6 +185,30 @@ let judge op args got =
          according to the alignment, right by default) - since the repair F08 *)
       ignore layout_ok;
       expect ~nt:true ~extra:(cls ^ fid) ("ok " ^ tok_of_bytes want) got
+  | "bin" | "oct" | "lhex" | "uhex" | "bin_repr" | "oct_repr" | "lhex_repr" | "uhex_repr" ->
+      (* the radix-specific formats (impl_fmt_with_base!): {:b} base 2, {:o} base 8, {:x}/{:X} base 16 (positional, own
+         marker) and {:x}/{:X} base 2 (hexadecimal form 0x1.8p3); FBig rounds under its mode, a bare Repr under Zero.
+         Verdict: Float/RadixFmtModel.radix_spec (digits = spec_round to the requested number of digits - of BITS,
+         4 prec + 4, for the hexadecimal form -, padding = core::fmt's convention with the prefix after the sign) *)
+      let (s, e) = norm (z (arg 2)) (z (arg 3)) in
+      let f = flags_of (arg 5) (optz (arg 6)) in
+      let prec = optz (arg 7) in
+      let is_repr = String.length op > 5 || op = "bin_repr" || op = "oct_repr" in
+      let m = if is_repr then MZero else m in
+      let tr = (match String.sub op 0 3 with "bin" -> TBinary | "oct" -> TOctal | "lhe" -> TLowerHex | _ -> TUpperHex) in
+      (match radix_format b tr with
+       | None -> fail "no-such-format"
+       | Some ((upper, hex), mk) ->
+           let want = radix_spec b m upper hex mk f s e prec in
+           let asis = radix_asis b m upper hex mk f s e prec in
+           let fid = " asis=" ^ (if [ "ok"; tok_of_bytes asis ] = got then "same" else "diff") in
+           let nd = if hex then dlen (zi 2) s else dlen b s in
+           let rounded = (match prec with
+               | Some p -> Zar.gt nd (if hex then Zar.add (Zar.mul (zi 4) p) (zi 4) else Zar.succ p)
+               | None -> false) in
+           let cls = "cls=radix-" ^ (if hex then "hex" else "positional") ^ (if rounded then "-rounded" else "-plain")
+                     ^ (if f.f_width <> None then "-width" else "") in
+           expect ~nt:true ~extra:(cls ^ fid) ("ok " ^ tok_of_bytes want) got)
   | "dbg" | "dbg_alt" | "dbg_repr" | "dbg_repr_alt" ->
       (* Debug: the exact text of Float/DebugSpec.v (IBig's Debug at its C07 specification: 19 digits at each end
          around ".." from 2^128 on) *)
@@ -216,7 +247,8 @@ let judge op args got =
       let fixed_p = if op = "with_base_prec" then Some (z (arg (si + 3))) else None in
       let related = power_related b nb in
       let route = if Zar.equal b nb then "same" else if related then "power"
-        else if Zar.leq (Zar.abs e) threshold_small_exp then (if Zar.sign e >= 0 then "small-pos" else "small-neg") else "large" in
+        else if Zar.leq (Zar.abs e) threshold_small_exp then (if Zar.sign e >= 0 then "small-pos" else "small-neg")
+        else if common_root_spec b nb then "root" else "large" in
       (match got with
        | [ "ok"; rs; re; rf; rp ] ->
            let rs = z rs and re = z re and rp = z rp in
@@ -242,7 +274,17 @@ let judge op args got =
                  | Some _ -> Some false
                  | None -> None) in
              let fid = (match asis_same with Some true -> " asis=same" | Some false -> " asis=diff" | None -> "") in
-             if full then pass ~extra:("cls=" ^ cls ^ " path=" ^ route ^ fid) ()
+             if route <> "large" && Zar.sign s <> 0 then begin
+               (* every route that needs no logarithm (same base, power-related bases, |e| <= 38, and since F10 bases with a
+                  common root) computes the value exactly and rounds ONCE: the answer must be THE specified float
+                  (ConvBaseModel4.convert_base_spec: the p-digit float the mode names for s * B^e, normal form, truthful
+                  flag; ConvBaseProof4.convert_base4_spec) - in particular it fits the target precision *)
+               let ((ws, we), wf) = convert_base_spec b nb rp m s e in
+               let want = Printf.sprintf "ok %s %s %s %s" (hx ws) (hx we) (flag_tok wf) (hx rp) in
+               if split_ws want = got && not full then { v = "fail"; extra = "specification-outside-the-contract(check broken)" }
+               else expect ~extra:("cls=" ^ cls ^ " path=" ^ route ^ fid) want got
+             end
+             else if full then pass ~extra:("cls=" ^ cls ^ " path=" ^ route ^ fid) ()
              else if route = "large" && Zar.leq (dlen nb rs) (Zar.succ rp) then begin
                (* open finding: the ln/exp route is not faithful.  The class is the input route + exactly the answer
                   the as-is model of the route predicts (Float/LargeExpAsis.v on top of the C11 as-is models of ln /
